@@ -89,6 +89,13 @@ def gen(tier, seed, shard, nshards):
             rp = _gc.ring_pdag(("C07", seed, "ring", k))
             if G.directed_part_acyclic(rp):
                 yield "sampled-pdag", {"masks": rp}
+    # chordless rings on 10-12 nodes, directed round the ring except for one or two edges (few undirected edges: the library's own
+    # 2^u enumeration stays cheap): a criterion that only *bounds* the weight of long cycles lets the cyclic orientation through
+    for k in range(32 if tier == "quick" else 400):
+        if k % nshards == shard:
+            rp = _gc.ring_pdag(("C07", seed, "longring", k), Lrange=(10, 13), pmax=13, styles=(1, 1, 1, 2))
+            if G.directed_part_acyclic(rp) and _gc.n_undirected(rp) <= 6:
+                yield "sampled-pdag", {"masks": rp}
     for k in range(n["weighted"] // 3):
         if k % nshards == shard:
             yield "weighted", {"W": _gc.near_chain(("C07", seed, "nc", k))}
